@@ -161,6 +161,14 @@ def wrrChoose (hs : Hosts) (st : LBState) (c : Call) : Out :=
     let (r, c') := rrChoose hs st'.rr
     ⟨r, { st' with rr := c' }, c.draws, h', none⟩
 
+/-- consecutive lookups of the weighted round-robin balancer, one tie hint per lookup: served hosts and final state. -/
+def wrrServe (hs : Hosts) : LBState → List (Option Nat) → List (Option Nat) × LBState
+  | st, [] => ([], st)
+  | st, h :: r =>
+    let out := wrrChoose hs st { hints := [h] }
+    let (l, st') := wrrServe hs out.st r
+    (out.result :: l, st')
+
 /-! ### least request / least connection: EDF front, fallback power-of-`choice` random choices among healthy hosts,
 then a traversal from a random index (repaired code, KNOWN_FINDINGS `fixed:` C05) -/
 
